@@ -246,6 +246,80 @@ def restore_renamed(tree: ast.Module, modname: str, baseline: Optional[Dict[str,
     return log
 
 
+def restore_parameter_order(tree: ast.Module, modname: str) -> List[str]:
+    """step P: a pinned *private* function whose parameters were re-ordered, or that was given additional parameters (state that used
+    to be parked on self handed in instead), gets its pinned parameters back in their pinned positions, the new ones after them;
+    the positional arguments of its call sites in the module move along.  Rules address parameters by their pinned position."""
+    log: List[str] = []
+    known = known_functions().get(modname, {})
+    frozen = known.get('params', {})
+    for q, fn, cls, _ in _scopes(tree):
+        if q not in frozen or not isinstance(fn, ast.FunctionDef):
+            continue
+        name = fn.name
+        if not name.startswith('_') or (name.startswith('__') and name.endswith('__')):
+            continue
+        a = fn.args
+        if a.vararg or a.kwarg or a.posonlyargs or a.kwonlyargs:
+            continue
+        now = [x.arg for x in a.args]
+        old = frozen[q]
+        if now == old or not set(old) <= set(now) or len(set(now)) != len(now):
+            continue
+        new = list(old) + [p_ for p_ in now if p_ not in old]
+        if new == now:
+            continue
+        # defaults: only when the defaulted parameters stay a suffix with the same values
+        nd = len(a.defaults)
+        dflt = dict(zip(now[len(now) - nd:], a.defaults))
+        if dflt and new[len(new) - len(dflt):] != [p_ for p_ in new if p_ in dflt]:
+            continue
+        perm = [now.index(p_) for p_ in new]
+        by_name = {x.arg: x for x in a.args}
+        is_method = cls is not None and not any(isinstance(d, ast.Name) and d.id == 'staticmethod' for d in fn.decorator_list)
+        off = 1 if is_method else 0
+        if is_method and new[0] != now[0]:
+            continue
+        # call sites
+        sites = []
+        ok = True
+        for c in ast.walk(tree):
+            if not isinstance(c, ast.Call):
+                continue
+            f_ = c.func
+            nm = f_.attr if isinstance(f_, ast.Attribute) else f_.id if isinstance(f_, ast.Name) else None
+            if nm is None or not (nm == name or (cls is not None and nm == '_%s%s' % (cls.name.lstrip('_'), name))):
+                continue
+            if any(isinstance(x, ast.Starred) for x in c.args) or any(k.arg is None for k in c.keywords):
+                ok = False
+                break
+            sites.append(c)
+        if not ok:
+            continue
+        for c in sites:
+            given = {}
+            for i, x in enumerate(c.args):
+                if i + off < len(now):
+                    given[now[i + off]] = x
+            kw = {k.arg: k for k in c.keywords}
+            new_args, stop = [], False
+            for p_ in new[off:]:
+                if p_ in given and not stop:
+                    new_args.append(given.pop(p_))
+                else:
+                    stop = True         # from here on by keyword
+                    if p_ in given:
+                        kw[p_] = ast.keyword(p_, given.pop(p_))
+            c.args = new_args
+            c.keywords = [kw[k_] for k_ in kw]
+        a.args = [by_name[p_] for p_ in new]
+        a.defaults = [dflt[p_] for p_ in new if p_ in dflt]
+        log.append('%s: %s takes (%s) again (was (%s))' % (modname, q, ', '.join(new), ', '.join(now)))
+    if log:
+        ast.fix_missing_locations(tree)
+    return log
+
+
 def restore_renamed_attributes(tree: ast.Module, modname: str) -> List[str]:
     """step A: private instance attributes.  The frozen `__init__` of a class says `self._x = <e>`; if `_x` does not occur in the
     module any more and the `__init__` of today binds a new private attribute to the same expression, that attribute is `_x` under
